@@ -42,7 +42,7 @@ package ct
 //@ ensures [iff-ct-eku-present] result <==> (exists j int :: 0 <= j && j < len(issuer.ExtKeyUsage) && issuer.ExtKeyUsage[j] == x509.ExtKeyUsageCertificateTransparency)
 
 //@ func MerkleTreeLeafFromChain
-//@ props C01 C03
+//@ props C01 C03 C06
 //@ arith int
 //@ pure
 //@ site IsPreIssuer#1 as ipi
@@ -64,7 +64,7 @@ package ct
 //@ at sha assert [key-hash-of-final-issuer] (ipi.res ==> sha.data == chain[2].RawSubjectPublicKeyInfo) && (!ipi.res ==> sha.data == chain[1].RawSubjectPublicKeyInfo)
 
 //@ func MerkleTreeLeafForEmbeddedSCT
-//@ props C03 C05
+//@ props C03 C05 C06
 //@ modifies nothing
 //@ arith int
 //@ site RemoveSCTList#1 as rm
